@@ -40,7 +40,7 @@ LEVEL_NOTE = (
 )
 ASSUMPTIONS = [
     "for abandoned streams no assertion is made about WHEN before gc + drain the scope completes",
-    "nested scopes entered by the generator do not span a yield",
+    "nested scopes / updates entered by the generator may span a yield (gen_span); streams nested in streams are consumed inside the outer generator",
 ]
 REQUIRED_CLASSES = ["creation!=consumption", "early-termination", "nested-stream", "generator-raises", "other-task"]
 
